@@ -259,7 +259,7 @@ def _norm(spec, raw, ctx):
         if o.get("resolve"):
             if "\x00" in v or not v.isascii() or not v:
                 return UNSPEC
-            ans = ctx.world.dns.get(v) if not ctx.dns_failing else None
+            ans = None if ctx.dns_failing else next((a for k_, a in ctx.world.dns.items() if k_.lower() == v.lower()), None)
             return OK(ans) if ans else REJ
         if HOSTNAME_REGEX.match(v) or NETBIOS_REGEX.match(v):
             return OK(v)
